@@ -532,6 +532,15 @@ pub fn cw_cases(r: &mut Rng, n: usize) -> Vec<String> {
             m[pos] ^= 1 << r.below(8);
             probes.push((format!("flip-at-{}-of-{}", pos, stream.len()), m));
         }
+        // cuts exactly at the frame borders (the reader sees a clean end of the underlying data there) and a few
+        // bytes into the next frame's length word
+        for b in boundaries(&stream) {
+            for k in 0..8usize {
+                if b + k < stream.len() {
+                    probes.push((format!("cut-at-frame-border-{}+{}", b, k), stream[..b + k].to_vec()));
+                }
+            }
+        }
         for (what, m) in probes {
             out.push("#stat cw-tamper-probes 1".into());
             if let Ok(p) = read_exactly(PASSWORD, &m, data.len()) {
@@ -539,6 +548,12 @@ pub fn cw_cases(r: &mut Rng, n: usize) -> Vec<String> {
                     "!C14 tampered-stream-accepted prog={} change={} frames={:?} same-plaintext={}",
                     req.replace(' ', "_"), what, lens, p == data
                 ));
+                if what.starts_with("cut") {
+                    out.push(format!(
+                        "!C07 prefix-of-encrypted-stream-accepted prog={} change={} frames={:?} same-plaintext={}",
+                        req.replace(' ', "_"), what, lens, p == data
+                    ));
+                }
                 break;
             }
         }
